@@ -563,4 +563,19 @@ Qed.
 Lemma calc_labels p q art : calc E p q art = labels (above E p q art).
 Proof. reflexivity. Qed.
 
+Theorem calc_threshold_exact p q art i : i < n ->
+  (getl (calc E p q art) i <> 0 <-> get (above E p q art) i = true).
+Proof. apply labels_threshold_exact. apply length_above. Qed.
+
+Theorem calc_labels_are_components p q art i j : i < n -> j < n ->
+  get (above E p q art) i = true -> get (above E p q art) j = true ->
+  (getl (calc E p q art) i = getl (calc E p q art) j <-> conn (above E p q art) i j).
+Proof. apply labels_are_components. apply length_above. Qed.
+
+Theorem calc_numbered_by_descending_peak p q art i : i < n -> get (above E p q art) i = true ->
+  forall m, 1 <= m <= getl (calc E p q art) i ->
+  exists i', i' < n /\ getl (calc E p q art) i' = m /\
+             forall j, j < n -> m < getl (calc E p q art) j -> (val j <= val i')%Z.
+Proof. apply labels_numbered_by_descending_peak. apply length_above. Qed.
+
 End Spec.
